@@ -81,7 +81,7 @@ struct quad_info_t
     double   lambda_min{0};
 };
 
-std::unique_ptr<quadratic_t> make_quadratic(Rng& rng, int64_t n, quad_info_t& info)
+std::unique_ptr<quadratic_t> make_quadratic(Rng& rng, int64_t n, quad_info_t& info, bool hard = false)
 {
     // random orthogonal Q by Gram-Schmidt
     matrix_t Q(n, n);
@@ -108,8 +108,9 @@ std::unique_ptr<quadratic_t> make_quadratic(Rng& rng, int64_t n, quad_info_t& in
     }
     // condition number in [1, 1e3] and curvature scale in [1e-3, 1e3] (the corners included); the spectrum is geometric, or random /
     // clustered inside [1, kappa] with both ends attained
-    const auto kappa = rng.coin(1, 8) ? rng.pick(std::vector<double>{1.0, 1e3}) : std::pow(10.0, rng.uniform(0.0, 3.0));
-    const auto s     = rng.coin(1, 8) ? rng.pick(std::vector<double>{1e-3, 1e3}) : std::pow(10.0, rng.uniform(-3.0, 3.0));
+    // (hard: the ill-conditioned, flat corner of the class, where quasi-Newton methods need most of their evaluation budget)
+    const auto kappa = hard ? std::pow(10.0, rng.uniform(2.5, 3.0)) : rng.coin(1, 8) ? rng.pick(std::vector<double>{1.0, 1e3}) : std::pow(10.0, rng.uniform(0.0, 3.0));
+    const auto s     = hard ? std::pow(10.0, rng.uniform(-3.0, -2.0)) : rng.coin(1, 8) ? rng.pick(std::vector<double>{1e-3, 1e3}) : std::pow(10.0, rng.uniform(-3.0, 3.0));
     vector_t   spectrum(n);
     const auto shape = rng.range(0, 2);
     for (tensor_size_t i = 0; i < n; ++i)
